@@ -127,5 +127,6 @@ func (s *CLSignature) Randomize(pk *gabikeys.PublicKey) (*CLSignature, error) {
 	APrime.Mod(APrime, pk.N)
 	t := new(big.Int).Mul(s.E, r)
 	VPrime := new(big.Int).Sub(s.V, t)
-	return &CLSignature{A: APrime, E: new(big.Int).Set(s.E), V: VPrime}, nil
+	// (a keyshare contribution belongs to the signature: without it the randomised signature does not verify)
+	return &CLSignature{A: APrime, E: new(big.Int).Set(s.E), V: VPrime, KeyshareP: s.KeyshareP}, nil
 }
